@@ -168,6 +168,19 @@ def gen_module(rng, params):
     for b in dblocks:
         fill_data(b)
 
+    # offset-keyed annotations (comments / padding), block- and interval-keyed
+    ap = params.get("annot_p", 0.15)
+    for b in blocks + dblocks:
+        for it in b["items"]:
+            if rng.random() < ap:
+                size = _item_size(isa, b["kind"], it)
+                ann = {}
+                for _ in range(rng.randint(1, 2)):
+                    table = rng.choice(["comments", "padding"])
+                    keying = rng.choice(["b", "i"])
+                    rel = rng.choice([0, 0, size - 1, rng.randrange(size)])
+                    ann[f"{table}/{keying}@{rel}"] = (f"c-{it['id']}-{rel}" if table == "comments" else rng.randint(1, 9))
+                it["ann"] = ann
     # alignment
     if rng.random() < params.get("align_p", 0.3):
         for b in blocks + dblocks:
@@ -218,6 +231,15 @@ def gen_module(rng, params):
     if rng.random() < 0.5:
         desc["entry_point"] = rng.choice(code_blocks)["id"]
     return desc
+
+
+def _item_size(isa, kind, it):
+    from . import build, vocab
+
+    v = vocab.get(isa)
+    if kind == "code":
+        return len(v.encode(it)[0])
+    return len(build.data_item_bytes({"isa": isa}, it, v.ptr)[0])
 
 
 def _block_size(isa, b):
